@@ -20,6 +20,8 @@ DOC_LINES = {
 
 SIG_TEXT = {"s0": [], "s1": ["p", "/", "x", "y=1"], "s2": ["*va", "k", "kd=2", "**kw"], "s3": ["*", "kd=2", "k", "ko=3"]}
 
+# the top-level module `other` next to the package: same name as pkg/other.py, different content
+TOP_OTHER_PY = "class TK:\n    pass\n"
 OTHER_PY = "class OK:\n    pass\n\n\ndef og(u):\n    pass\n\n\nov = 3\n"
 
 
@@ -99,6 +101,8 @@ def render_main(case: dict, pkg: str) -> str:
                 lines.append(f"{ind}from {dots} import other{tail}")
             elif w == "ext":
                 lines.append(f"{ind}from io import StringIO{tail}")
+            elif w == "top":
+                lines.append(f"{ind}from other import TK{tail}")
             elif w == "cp":
                 lines.append(f"{ind}from functools import cached_property{tail}")
             else:
@@ -133,6 +137,10 @@ def write_package(root: str, pkg: str, case: dict) -> str:
     if case["main"] in ("mid", "deep", "leaf"):
         files.update({"mid/__init__.py": "", "mid/other.py": OTHER_PY, "mid/deep/__init__.py": "", "mid/deep/other.py": OTHER_PY})
     files[main_file] = render_main(case, pkg)
+    top = os.path.join(root, "other.py")
+    if not os.path.exists(top):
+        with open(top, "w") as fh:
+            fh.write(TOP_OTHER_PY)
     for rel, text in files.items():
         path = os.path.join(d, rel)
         os.makedirs(os.path.dirname(path), exist_ok=True)
